@@ -1,5 +1,6 @@
 import XyzProofs.Props.C15
 import XyzModel.Gen.Extracted
+import XyzProofs.Lemmas.TwoMode
 /-!
 # The Sampler's storage methods: the hand-written model IS the translated source (state skeletons)
 
@@ -81,8 +82,8 @@ theorem smAddDf_refines {β} (s : St β) (new : List (Row β)) :
        ops_memIsNone, ops_mem, ops_copy, ops_concat]
      cases d <;> cases m <;> simp [smSaveFull_spec, addDf, stBind]
      done)
-  | (have e1 : @Gen.Default.smLoadFull = @Gen.smLoadFull := rfl
-     have e2 : @Gen.Default.smSaveFull = @Gen.smSaveFull := rfl
+  | (have e1 : @Gen.Default.smLoadFull = @Gen.smLoadFull := by same_gen [Gen.Default.smLoadFull, Gen.smLoadFull]
+     have e2 : @Gen.Default.smSaveFull = @Gen.smSaveFull := by same_gen [Gen.Default.smSaveFull, Gen.smSaveFull]
      simp only [Gen.smAddDf, Gen.Default.smAddDf, e1, e2, Bool.not_false, Bool.and_true, if_true, smLoadFull_spec, stBind,
        ops_memIsNone, ops_mem, ops_copy, ops_concat]
      cases d <;> cases m <;> simp [smSaveFull_spec, addDf, stBind]
